@@ -163,6 +163,20 @@ def abstract_fp(t):
     """Replace every floating-point *computation* (arithmetic, conversions, libm applications) inside t by a fresh
     constant per distinct term, keeping if-then-else structure, variables and constants.  The result only needs
     equality reasoning; validity of the abstraction implies validity of t (congruence is lost, nothing is added)."""
+    tid = t.get_id()
+    hit = _FPABS_DONE.get(tid)
+    if hit is not None:
+        return hit
+    r = _abstract_fp(t)
+    _FPABS_DONE[tid] = r
+    _FPABS_KEEP.append(t)
+    return r
+
+
+_FPABS_DONE = {}
+
+
+def _abstract_fp(t):
     subs = []
     seen = set()
     stack = [t]
